@@ -477,6 +477,17 @@ def r2(ctx: Ctx) -> None:
     all_reads, none_defs = _VAL_EXTRA[f.qname]
     ctx.ob("C01.R2", f, "acquire dominates validation read", read, all(a.id in dom[r_.id] for r_ in all_reads),
            "the validation refresh() happens while holding the lock")
+    # ... and so does the resolution of WHICH version is validated: the package calls that the validated file's name derives
+    # from (the pointer read / recovery scan) run under the distributed lock too - a version resolved before the lock is
+    # acquired can be superseded by the time it is compared, numbered from and replaced
+    sl_ = ctx.slicer(f)
+    for r_ in all_reads:
+        org_ = sl_.origins(r_.ast, r_.id)
+        for c_ in [n_ for n_ in g.calls() if n_.ast in org_["calls"] and n_.callee is not None and n_.callee.kind == "func" and n_.id != r_.id
+                   and any(t_.module.short == "metadata_manager" for t_ in n_.callee.funcs)]:
+            ctx.ob("C01.R2", f, "acquire dominates the resolution of the validated version", c_, a.id in dom[c_.id],
+                   f"`{c_.text[:60]}` decides which metadata version is read, compared and numbered from: it runs while holding the lock",
+                   text=c_.text[:40])
     # a path may skip a comparison only through the false edge of the `if <current>` existence guard
     guard_false = {(b.id, d) for b in g.nodes if b.kind == "branch" and isinstance(b.ast, ast.Name) and b.ast.id == cur
                    for d, l in g.succ[b.id] if l == "false"}
